@@ -3,7 +3,7 @@
  "name": "gen64_mark",
  "props": ["C16"],
  "level": "U",
- "tier": "wip",
+ "tier": "quick",
  "harness": "h_gen_single",
  "defines": ["SINGLE_OP=0"],
  "enforce": ["ext2fs_mark_generic_bmap"],
@@ -20,7 +20,7 @@
  "name": "gen64_unmark",
  "props": ["C16"],
  "level": "U",
- "tier": "wip",
+ "tier": "quick",
  "harness": "h_gen_single",
  "defines": ["SINGLE_OP=1"],
  "enforce": ["ext2fs_unmark_generic_bmap"],
@@ -37,7 +37,7 @@
  "name": "gen64_test",
  "props": ["C16"],
  "level": "U",
- "tier": "wip",
+ "tier": "quick",
  "harness": "h_gen_single",
  "defines": ["SINGLE_OP=2"],
  "enforce": ["ext2fs_test_generic_bmap"],
@@ -184,7 +184,7 @@
  "name": "gen64_passthrough",
  "props": ["C16"],
  "level": "U",
- "tier": "wip",
+ "tier": "quick",
  "harness": "h_gen_pass",
  "enforce": ["ext2fs_set_generic_bmap_range", "ext2fs_get_generic_bmap_range", "ext2fs_resize_generic_bmap", "ext2fs_fudge_generic_bmap_end"],
  "functions": ["lib/ext2fs/gen_bitmap64.c:ext2fs_set_generic_bmap_range", "lib/ext2fs/gen_bitmap64.c:ext2fs_get_generic_bmap_range", "lib/ext2fs/gen_bitmap64.c:ext2fs_resize_generic_bmap", "lib/ext2fs/gen_bitmap64.c:ext2fs_fudge_generic_bmap_end"],
